@@ -98,11 +98,17 @@ class MidiFile(object):
                     else:
                         # time passes before the first entry of the track:
                         # the track starts with a rest
-                        b.place_rest(duration)
+                        if not b.place_rest(duration):
+                            # longer than the bar: kept whole, like an entry
+                            # that is resized above, so that no time is lost
+                            b.bar.append([b.current_beat, duration, None])
+                            b.current_beat += 1.0 / duration
                     if not b.place_notes(NoteContainer(), duration):
                         t + b
                         b = Bar(key, meter)
-                        b.place_notes(NoteContainer(), duration)
+                        if not b.place_notes(NoteContainer(), duration):
+                            b.bar.append([b.current_beat, duration, NoteContainer()])
+                            b.current_beat += 1.0 / duration
 
                 if event["event"] == 8:
                     if deltatime == 0:
